@@ -554,10 +554,11 @@ class ProxyKmipClient(object):
                 object_attributes.append(opn_attribute)
         if hasattr(managed_object, 'names'):
             if managed_object.names:
-                for name in managed_object.names:
+                for index, name in enumerate(managed_object.names):
                     name_attribute = self.attribute_factory.create_attribute(
                         enums.AttributeType.NAME,
-                        name
+                        name,
+                        index=index
                     )
                     object_attributes.append(name_attribute)
 
